@@ -15,12 +15,13 @@ ScenSet == CASE Family = "F1" -> F1
              [] Family = "F5" -> F5
              [] Family = "F6" -> F6
              [] OTHER -> Multi
+(* at most one connection waits for the others (two waiting for each other is the application's deadlock) *)
 MCInit == IF Family = "Multi"
-          THEN \E f \in [Conns -> Multi] : InitWith(f)
+          THEN \E f \in [Conns -> Multi] : Cardinality({c \in Conns : f[c] = WaitScen}) <= 1 /\ InitWith(f)
           ELSE \E S \in ScenSet : InitWith([c \in Conns |-> S])
 Spec == MCInit /\ [][Next]_vars /\ Fairness
 (* ghost/history variables do not influence behaviour: hide them from the fingerprint *)
-View == <<scen, wire, rbuf, cseg, peer, pc, cur, hpos, hfail, out, disp, active>>
+View == <<scen, wire, rbuf, cseg, peer, pc, cur, hpos, hfail, hc, out, disp, active>>
 (* C01: nothing on one connection depends on the others *)
 Independence == \A c \in Conns : /\ IsPrefix(out[c], Sem(scen[c]).out)
                                  /\ IsPrefix(disp[c], Sem(scen[c]).disp)
